@@ -828,8 +828,8 @@ func c05LongCases(target string, lens []int, buf int, streamLen int64, hdr int, 
 		c.Target, c.Lens, c.Buf = target, lens, buf
 		out = append(out, c)
 	}
-	mk(c05Case{})                                // coalesced: everything available at once
-	mk(c05Case{MaxSeg: 1, Seed: 1})              // 1-byte drip
+	mk(c05Case{})                   // coalesced: everything available at once
+	mk(c05Case{MaxSeg: 1, Seed: 1}) // 1-byte drip
 	mk(c05Case{MaxSeg: 2, Seed: int64(rng.Intn(1 << 30))})
 	mk(c05Case{MaxSeg: 7, Seed: int64(rng.Intn(1 << 30))})
 	mk(c05Case{MaxSeg: 1460, Seed: int64(rng.Intn(1 << 30))})
@@ -903,6 +903,20 @@ func TestVerifC05Sweep(t *testing.T) {
 		c05ReplayFile(t, rp)
 		return
 	}
+	c05SweepBody(res)
+}
+
+// TestVerifC05Live = the sweeps followed by the concurrent-writer recordings, in one test binary run
+func TestVerifC05Live(t *testing.T) {
+	res := kit.NewResult()
+	defer func() { res.Save(true) }()
+	tw := kit.NewTraceWriter("trace.ndjson")
+	defer tw.Close()
+	c05SweepBody(res)
+	c05ConcBody(res, tw)
+}
+
+func c05SweepBody(res *kit.Result) {
 	codeBuf, _ := c05CodeBuf()
 	rng := kit.NewRng(kit.Seed())
 	thorough := kit.Thorough()
@@ -1671,6 +1685,7 @@ func c05RunConc(res *kit.Result, tw *kit.TraceWriter, run c05ConcRun) {
 		sum += c
 	}
 	res.Count(fmt.Sprintf("%+v", run), run.K > 1)
+	res.Stat("conc_runs", 1)
 	res.Stat("conc_messages_written", int64(sum))
 	res.Stat("conc_messages_read", int64(s.got))
 	for _, p := range panics {
@@ -1692,8 +1707,12 @@ func TestVerifC05Conc(t *testing.T) {
 	}
 	tw := kit.NewTraceWriter("trace.ndjson")
 	defer tw.Close()
+	c05ConcBody(res, tw)
+}
+
+func c05ConcBody(res *kit.Result, tw *kit.TraceWriter) {
 	codeBuf, _ := c05CodeBuf()
-	rng := kit.NewRng(kit.Seed())
+	rng := kit.NewRng(kit.Seed() + 77)
 	thorough := kit.Thorough()
 	small := []int{4, 5, 6, 7, 9, 16, 100, 1000, 1460}
 	big := []int{4, 5, 64, 1460, 16384, 16401, c05MaxTLSWrite}
